@@ -18,6 +18,7 @@ import GivaroModel.Lemmas.PolyMid
 import GivaroModel.Lemmas.PolyMidKara
 import GivaroModel.Lemmas.PadicLemmas
 import GivaroModel.Lemmas.PolyInterp
+import GivaroModel.Lemmas.PolyMore
 
 open Polynomial
 set_option linter.unusedSectionVars false
@@ -623,6 +624,83 @@ example : ∃ (P Q D U V : ℚ[X]), D ∣ P ∧ D ∣ Q ∧ D = P * U + Q * V :=
 example : ∃ (P Q U : ℚ[X]), Q ∣ U * P - 1 := ⟨1, X, 1, by simp⟩
 example : ∃ (P Q G U V L : ℚ[X]), G = P * U + Q * V ∧ L * G = P * Q ∧ G ≠ 0 :=
   ⟨1, 1, 1, 1, 0, 1, by ring, by ring, one_ne_zero⟩
+
+/-! ### the remaining members: observers on any storage, `setEntry`, `shiftin`, constructors, mixed scalar forms, `random` -/
+
+/-- `isOne`, `isMOne`, `isUnit`, `areNEqual` answer for the denoted polynomial whatever the storage (leading zeros, `[0]`,
+    `[]`): they normalise their `const` argument first -/
+theorem observers_any_storage (P Q : List K) :
+    (isOne P = true ↔ toPoly P = 1) ∧ (Givaro.Model.PolyMore.isMOne P = true ↔ toPoly P = -1) ∧
+    (Givaro.Model.PolyMore.isUnit P = true ↔ IsUnit (toPoly P)) ∧
+    (Givaro.Model.PolyMore.areNEqual P Q = true ↔ toPoly P ≠ toPoly Q) := by
+  refine ⟨Givaro.Lemmas.PolyMore.isOne_correct P, Givaro.Lemmas.PolyMore.isMOne_correct P,
+    Givaro.Lemmas.PolyMore.isUnit_correct P, ?_⟩
+  unfold Givaro.Model.PolyMore.areNEqual
+  rw [Bool.not_eq_true', decide_eq_false_iff_not, setdegree_eq_iff]
+
+/-- `val(d, P)` is the valuation: `deginfty` exactly for the zero polynomial (stored as `[]`, `[0]`, `[0,0]`, …), else the
+    index of the lowest non-zero coefficient -/
+theorem val_exact (P : List K) :
+    (Givaro.Model.PolyMore.val P = -1 ↔ toPoly P = 0) ∧
+    (toPoly P ≠ 0 → ∃ k : Nat, Givaro.Model.PolyMore.val P = (k : Int) ∧ (toPoly P).coeff k ≠ 0 ∧
+      ∀ j, j < k → (toPoly P).coeff j = 0) :=
+  Givaro.Lemmas.PolyMore.val_spec P
+
+/-- `setEntry(P, c, i)` (all four branches: nothing happens / degree is killed / element is killed / `resize`): the
+    coefficient of degree `i` becomes `c`, every other coefficient of the denoted polynomial is kept — any storage, any `i` -/
+theorem setEntry_exact (P : List K) (c : K) (i j : Nat) :
+    (toPoly (Givaro.Model.PolyMore.setEntry P c i)).coeff j = if j = i then c else (toPoly P).coeff j :=
+  Givaro.Lemmas.PolyMore.setEntry_coeff P c i j
+
+/-- `shiftin(R, s)` multiplies by `X^s` (un-normalised input included) -/
+theorem shiftin_exact (R : List K) (s : Nat) : toPoly (Givaro.Model.PolyMore.shiftin R s) = X ^ s * toPoly R :=
+  Givaro.Lemmas.PolyMore.toPoly_shiftin R s
+
+/-- constructors and assignments of givpoly1cstor.inl: `init(P)`, `init(P, v)`, `init(P, Degree d)`, `init(P, d, v)` /
+    `assign(P, d, v)` (normalised also for `v = 0`), `assign(P, v)`, `assign(P, Q)` (normal form of `Q`), and the polynomial →
+    scalar forms `assign(v, P)` / `convert(v, P)` (constant coefficient of the storage as it is) -/
+theorem cstor_exact (d : Nat) (v : K) (Q : List K) :
+    toPoly (Givaro.Model.PolyMore.init0 : List K) = 0 ∧ toPoly (Givaro.Model.PolyMore.initVal v) = C v ∧
+    toPoly (Givaro.Model.PolyMore.initDeg d : List K) = X ^ d ∧
+    toPoly (Givaro.Model.PolyMore.initDegVal d v) = C v * X ^ d ∧ Normal (Givaro.Model.PolyMore.initDegVal d v) ∧
+    toPoly (Givaro.Model.PolyMore.assignVal v) = C v ∧
+    toPoly (assign Q) = toPoly Q ∧ Normal (assign Q) ∧
+    Givaro.Model.PolyMore.toScalar Q = (toPoly Q).coeff 0 := by
+  refine ⟨rfl, by simp [Givaro.Model.PolyMore.initVal], Givaro.Lemmas.PolyMore.toPoly_initDeg d,
+    Givaro.Lemmas.PolyMore.toPoly_initDegVal d v, Givaro.Lemmas.PolyMore.normal_initDegVal d v, ?_,
+    toPoly_setdegree Q, Givaro.Lemmas.Poly.setdegree_normal Q, Givaro.Lemmas.PolyMore.toScalar_eq Q⟩
+  unfold Givaro.Model.PolyMore.assignVal
+  rw [Givaro.Lemmas.PolyMore.toPoly_initDegVal]; simp
+
+/-- the scalar / polynomial mixed quotient and remainder: `div(R, u, P) = u / P`, `mod(R, u, P) = u mod P` for every
+    non-zero `P` (any storage, constant or not), `mod(R, P, u) = modin(R, u) = P mod u` for every non-zero `u` -/
+theorem scalar_poly_mixed_exact (u : K) (P : List K) :
+    (toPoly P ≠ 0 → toPoly (Givaro.Model.PolyMore.valDiv u P) = C u / toPoly P) ∧
+    (toPoly P ≠ 0 → toPoly (Givaro.Model.PolyMore.valMod u P) = C u % toPoly P) ∧
+    (u ≠ 0 → toPoly (Givaro.Model.PolyMore.modVal P u) = toPoly P % C u) :=
+  ⟨Givaro.Lemmas.PolyMore.toPoly_valDiv u P, Givaro.Lemmas.PolyMore.toPoly_valMod u P,
+   Givaro.Lemmas.PolyMore.toPoly_modVal P u⟩
+
+example : ∃ (u : ℚ) (P : List ℚ), toPoly P ≠ 0 ∧ u ≠ 0 := ⟨1, [1], by simp, one_ne_zero⟩
+
+/-- `inv(R, P) = div(R, one, P)` (and `invin`): the Euclidean quotient `1 / P`, i.e. `1/c` for a non-zero constant `c` and
+    `0` for `deg P >= 1` -/
+theorem inv_exact (thr : Nat) (hthr : 1 ≤ thr) (P : List K) (hP : toPoly P ≠ 0) :
+    toPoly (Givaro.Model.PolyMore.inv thr P) = 1 / toPoly P :=
+  Givaro.Lemmas.PolyMore.toPoly_inv thr hthr P hP
+
+example : ∃ (thr : Nat) (P : List ℚ), 1 ≤ thr ∧ toPoly P ≠ 0 := ⟨50, [1], by decide, by simp⟩
+
+/-- `random(g, r, Degree d)` (and through it every `random` / `nonzerorandom` overload: `randomTarget`): whatever is drawn,
+    provided the leading draw is non-zero as `nonzerorandom` of the field promises, the result has exactly `d+1` coefficients,
+    is normalised and has degree `d`; `deginfty` gives the empty vector -/
+theorem random_shape (d : Int) (lead : K) (draws : List K) (hl : lead ≠ 0) :
+    (Givaro.Model.PolyMore.randomDeg d lead draws).length = (if d < 0 then 0 else d.toNat + 1) ∧
+    Normal (Givaro.Model.PolyMore.randomDeg d lead draws) ∧
+    Givaro.Model.Poly.degree (Givaro.Model.PolyMore.randomDeg d lead draws) = (if d < 0 then -1 else d) :=
+  Givaro.Lemmas.PolyMore.randomDeg_shape d lead draws hl
+
+example : ∃ lead : ℚ, lead ≠ 0 := ⟨1, one_ne_zero⟩
 
 /-! ### interpolation (givinterp.h) -/
 
